@@ -587,9 +587,29 @@ fn other_obs(obs_stream: &str, seed: u64, i: usize) -> S {
     }
 }
 
+/// Off-curve control points at / beyond the 16-bit limits while every on-curve point, and the curve itself, stay
+/// well inside: a range check that looks at the drawn shape (its bounding box, its on-curve points) instead of at every
+/// stored point lets these through. Field `coord`: the probed point is the one at y = 777 (sub x) / x = 333 (sub y).
+const OFF_VALS: &[f64] = &[32768.0, 40000.0, -32769.0, 50000.0, -40000.0, 65534.0, 32767.0, -32768.0, 33000.0, -60000.0];
+pub fn gen_off(_rng: &mut Rng, i: usize) -> Case {
+    let v = OFF_VALS[(i / 2) % OFF_VALS.len()];
+    let on_x = i % 2 == 0;
+    // quadratic extreme = (a + v) / 2: keep it at +-32000 where possible
+    let a = (v.signum() * 64000.0 - v).clamp(-32000.0, 32000.0);
+    let off = |x: f64, y: f64| Pt { x, y, typ: PtType::Off };
+    let q = |x: f64, y: f64| Pt { x, y, typ: PtType::QCurve };
+    let mut d = base_design(false, false);
+    let g = d.masters[0].glyphs.get_mut("a").unwrap();
+    g.contours = vec![if on_x { vec![line(a, 700.0), off(v, 777.0), q(a, 850.0)] }
+                      else { vec![line(250.0, a), off(333.0, v), q(420.0, a)] }];
+    Case { field: "coord", vals: vec![v], sub: if on_x { "x" } else { "y" }.into(), design: d, big: false }
+}
+
 fn case_of(stream: &str, seed: u64, i: usize) -> Case {
     let mut rng = Rng::for_case(seed, "c19", i);
-    if stream.starts_with("c19big") { gen_big(&mut rng, i) } else { gen_case(&mut rng, i) }
+    if stream.starts_with("c19big") { gen_big(&mut rng, i) }
+    else if stream.starts_with("c19off") { gen_off(&mut rng, i) }
+    else { gen_case(&mut rng, i) }
 }
 
 /// compact design description for the heavy cases (the full `(design …)` would be megabytes)
@@ -611,7 +631,7 @@ fn big_summary(c: &Case) -> S {
 /// bin/vcheck runs them with the release-profile harness binary).
 pub fn run(stream: &'static str, args: &Args) {
     let seed = args.seed;
-    let obs_stream = if stream.starts_with("c19big") { "c19bigobs" } else { "c19obs" };
+    let obs_stream = if stream.starts_with("c19big") { "c19bigobs" } else if stream.starts_with("c19off") { "c19offobs" } else { "c19obs" };
     crate::run_cases(stream, args, move |i| {
         let c = case_of(stream, seed, i);
         let (fields, obs) = observe(&c, stream);
@@ -632,7 +652,7 @@ pub fn run(stream: &'static str, args: &Args) {
 pub fn run_obs(stream: &'static str, args: &Args) {
     let seed = args.seed;
     crate::run_cases(stream, args, move |i| {
-        let c = case_of(if stream == "c19bigobs" { "c19big" } else { "c19e2e" }, seed, i);
+        let c = case_of(if stream == "c19bigobs" { "c19big" } else if stream == "c19offobs" { "c19off" } else { "c19e2e" }, seed, i);
         let (_, obs) = observe(&c, stream);
         vec![obs]
     });
